@@ -257,3 +257,86 @@ def register(gen, T):
                    f"def layoutErrorRendered : Bool := {'true' if layout else 'false'}\n")
         out.append(T.footer("PanicSites"))
         return "".join(out)
+
+
+    @gen("ArithSites")
+    def arith_sites():
+        """implicit panic sites (unchecked arithmetic, `as` casts, indexing, slicing) of the preprocessor / lexer core, and
+        the facts about the `defined` operation of apply_single_macro that `Model/DefinedLoc.lean` mirrors"""
+        import importlib.util
+        from rustsrc import lean_str, matching, normws, fn_body
+        spec = importlib.util.spec_from_file_location("_c08_arith", os.path.join(os.path.dirname(os.path.abspath(__file__)), "_c08_arith.py"))
+        A = importlib.util.module_from_spec(spec)
+        spec.loader.exec_module(A)
+        sites, _lines = A.inventory(T.REPO, strip_tests, fn_spans, matching, T.src)
+        out = [T.header("ArithSites", A.FILES)]
+        out.append("/-- (file, enclosing fn, kind, normalised text of the operands); kinds: `+ - * += -= *=`, `as <type>`, `index`, `slice`;\n"
+                   "    `#k` = k-th identical one inside that function -/\n")
+        out.append("def sites : List (String × String × String × String) := [\n")
+        out.append(",\n".join(f"  ({lean_str(a)}, {lean_str(b)}, {lean_str(c)}, {lean_str(d)})" for a, b, c, d in sites))
+        out.append("\n]\n\n")
+        out.append(f"def siteCount : Nat := {len(sites)}\n\n")
+        out.append("def files : List String := [" + ", ".join(lean_str(f) for f in A.FILES) + "]\n\n")
+
+        pre_rs = strip_tests(T.src("preprocess/src/preprocess.rs"), matching)
+        lex_rs = strip_tests(T.src("preprocess/src/lexer.rs"), matching)
+        asm = normws(fn_body(pre_rs, "apply_single_macro"))
+        fsm = normws(fn_body(pre_rs, "find_single_macro"))
+        pc = normws(fn_body(pre_rs, "preprocess_command"))
+        pif = normws(fn_body(pre_rs, "preprocess_included_file"))
+        mp = normws(fn_body(pre_rs, "parse"))
+
+        def flag_of(text):
+            t = text.strip()
+            return {"false": ".constFalse", "true": ".constTrue", "apply_defined": ".caller"}.get(t, ".other")
+
+        # 4th argument of the two recursive calls of apply_macros_internal inside apply_single_macro
+        from rustsrc import split_top
+        calls = []
+        for m in re.finditer(r'apply_macros_internal\s*\(', asm):
+            close = matching(asm, m.end() - 1)
+            args = [a.strip() for a in split_top(asm[m.end():close], ',') if a.strip()]
+            calls.append(args)
+        arg_call = [c for c in calls if c and c[0].startswith("arg")]
+        body_call = [c for c in calls if c and c[0] == "output"]
+        arg_flag = flag_of(arg_call[0][3]) if len(arg_call) == 1 and len(arg_call[0]) == 5 else ".other"
+        body_flag = flag_of(body_call[0][3]) if len(body_call) == 1 and len(body_call[0]) == 5 else ".other"
+        out.append("/-- where the `apply_defined` flag of a recursive `apply_macros_internal` call comes from -/\n"
+                   "inductive FlagSrc where\n  | constFalse\n  | constTrue\n  /-- the caller's own `apply_defined` -/\n  | caller\n  | other\n  deriving DecidableEq, Repr, Inhabited\n\n")
+        out.append(f"/-- flag of the rescan of the substituted macro body (`apply_macros_internal(output, .., <flag>, ..)`) -/\ndef bodyRescanFlag : FlagSrc := {body_flag}\n")
+        out.append(f"/-- flag of the expansion of the macro arguments (`apply_macros_internal(arg.to_vec(), .., <flag>, ..)`) -/\ndef argExpandFlag : FlagSrc := {arg_flag}\n")
+        out.append(f"def recursiveScanCalls : Nat := {len(calls)}\n\n")
+
+        dfacts = {
+            # find_single_macro reports `defined` only at or after next_pos and only when apply_defined is set
+            "definedOnlyFromNextPos": (fsm, r'if i >= search_pos\.next_pos && apply_defined && id\.0 == "defined" \{ return Ok\(FoundMacro::Defined\(i\)\); \}'),
+            "definedBeforeMacroLookup": (fsm, r'if let Token::Id\(id\) = &tokens\[i\]\.0 \{ if i >= search_pos\.next_pos && apply_defined'),
+            "startIsTheDefinedToken": (asm, r'let start_location = tokens\[pos\]\.get_location\(\);'),
+            "endIsTheLastConsumedToken": (asm, r'let end_location = tokens\[tokens\.len\(\) - remaining\.len\(\) - 1\]\.get_end_location\(\);'),
+            "sizeIsRawDifference": (asm, r'let location_size = end_location\.get_raw\(\) - start_location\.get_raw\(\);'),
+            "generatedTokenSpansFromStart": (asm, r'PreprocessToken::new\( generated_token, start_location, 0, location_size, \)'),
+            "bareFormNeedsBlank": (asm, r'\[PreprocessToken\(arg @ Token::Id\(_\), _\), rest @ \.\.\] if remaining\.len\(\) != remaining_trimmed\.len\(\) => \{ remaining = rest; arg \}'),
+            "parenFormSplitsArgs": (asm, r'let \(rest, args\) = split_macro_args\("defined", remaining\)\?; remaining = rest;'),
+            "definedContinuesAfterToken": (asm, r'tokens\.splice\(pos\.\.end, output\); Ok\(MacroSearchPosition \{ next_pos: pos \+ 1, early_function_pos: pos \+ 1, last_macro_function_index: usize::MAX, \}\)'),
+            "userContinuesAfterOutput": (asm, r'let new_end = pos \+ tokens_added; Ok\(MacroSearchPosition \{ next_pos: new_end, early_function_pos: pos,'),
+            "noneStopsAtEnd": (asm, r'FoundMacro::None => Ok\(MacroSearchPosition \{ next_pos: tokens\.len\(\), early_function_pos: tokens\.len\(\),'),
+            "concatRestartsAtLeft": (asm, r'tokens\.splice\(left_token_pos\.\.=right_token_pos, output\); Ok\(MacroSearchPosition \{ next_pos: left_token_pos, early_function_pos: left_token_pos,'),
+            # who scans with apply_defined = true: #if and #elif only; ordinary text never
+            "ifScansWithDefined": (pc, r'"if" => \{ .*?let resolved = apply_macros\(command, macros, true, file_loader\.source_manager\)\?;'),
+            "elifScansWithDefined": (pc, r'"elif" => \{ let command = trim_whitespace\(command\); let resolved = apply_macros\(command, macros, true, file_loader\.source_manager\)\?;'),
+            "textScansWithoutDefined": (pif, r'apply_macros\(input_tokens, macros, false, file_loader\.source_manager\)\?;'),
+            # Concat / MacroArg tokens are made by Macro::parse only (from `##` / parameter names in a macro body)
+            "concatMadeInMacroParse": (mp, r'else if let Token::HashHash = &t\.0 \{ return PreprocessToken\(Token::Concat, t\.1\.clone\(\)\); \}'),
+        }
+        out.append("/-- syntactic facts about the `defined` operation and the scan positions (regexes over the normalised source) -/\n")
+        out.append("structure DefinedShape where\n" + "".join(f"  {k} : Bool\n" for k in dfacts) + "  deriving DecidableEq, Repr\n\n")
+        out.append("def definedShape : DefinedShape := { " +
+                   ", ".join(f"{k} := {'true' if re.search(rx, s_) else 'false'}" for k, (s_, rx) in dfacts.items()) + " }\n\n")
+        n_apply_true = len(re.findall(r'apply_macros\([^;]*?, true,', pre_rs))
+        n_concat_made = len(re.findall(r'\(\s*Token::Concat\s*,', pre_rs + lex_rs))
+        n_macroarg_made = len(re.findall(r'\(\s*Token::MacroArg\(', pre_rs + lex_rs))
+        out.append(f"/-- number of `apply_macros(.., true, ..)` calls in preprocess.rs (the `#if` and `#elif` arms) -/\ndef scansWithDefined : Nat := {n_apply_true}\n")
+        out.append(f"/-- number of places in preprocess.rs + lexer.rs that construct a `Token::Concat` / `Token::MacroArg` token -/\n"
+                   f"def concatConstructions : Nat := {n_concat_made}\ndef macroArgConstructions : Nat := {n_macroarg_made}\n")
+        out.append(T.footer("ArithSites"))
+        return "".join(out)
